@@ -154,7 +154,7 @@ Definition bodies (fuel : nat) (m : N) : option (marg -> body) :=
 (* MockFnInfo of the mirrored methods: provided <-> has_default_impl; no unmock_with anywhere *)
 Definition mirror_info (m : N) : minfo :=
   {| mi_trait := "Mirror"; mi_method := "m" ++ dec m; mi_has_default := 32 <=? m;
-     mi_partial_by_default := false; mi_has_unmock_arm := false; mi_out_clone := true |}.
+     mi_partial_by_default := false; mi_has_unmock_arm := false; mi_out_clone := true; mi_more_leaves := 0 |}.
 
 Definition accepts_all (_ : N) (_ : marg) : bool := true.
 Definition no_debug (_ : marg) : list (option string) := [].
